@@ -248,6 +248,7 @@ RESOLVE_LOCAL = {
             && zr(old(context), *question)->Some_0.1->ns_rrs@.len() > 0 ==>
             r is Ok && r->Ok_0 is Delegation && r->Ok_0->Delegation_rrs == zr(old(context), *question)->Some_0.1->ns_rrs && r->Ok_0->Delegation_soa_rr == zone_soa_rr(zr(old(context), *question)->Some_0.0)
             && r->Ok_0->delegation.name == zr(old(context), *question)->Some_0.1->ns_rrs@[0].name, // [C01:authoritative_referral_from_the_zone_alone]
+        r is Ok && r->Ok_0 is Delegation ==> is_suffix(r->Ok_0->delegation.name.labels@, question.name.labels@), // [C06,C10:local_referral_is_for_an_ancestor_of_the_question_name]
         // C01: records of the asked name and type in a hosts file / non-authoritative zone: exactly those
         guards_pass(old(context), *question) && zr(old(context), *question) is Some && zr(old(context), *question)->Some_0.1 is Answer && zone_soa_rr(zr(old(context), *question)->Some_0.0) is None
             && question.qtype != QueryType::Wildcard && zr(old(context), *question)->Some_0.1->rrs@.len() > 0 ==>
